@@ -186,7 +186,8 @@ func vpMk_Time(shape int, tag byte) time.Time { return vpTimes[shape%len(vpTimes
 func vpEq_Time(a, b time.Time) bool           { return a.Equal(b) }
 func vpZero_Time(a time.Time) bool            { return a.IsZero() }
 
-var vpDurations = []time.Duration{90 * time.Second, time.Hour, 25 * time.Hour}
+// (the last ones are whole days: written without a time part, the shortest strings the codec produces)
+var vpDurations = []time.Duration{90 * time.Second, time.Hour, 25 * time.Hour, 72 * time.Hour, 24 * time.Hour, 240 * time.Hour, -48 * time.Hour}
 
 func vpMk_Duration(shape int, tag byte) time.Duration { return vpDurations[shape%len(vpDurations)] }
 func vpEq_Duration(a, b time.Duration) bool           { return a == b }
@@ -316,7 +317,7 @@ func vpShapes(kind string) int {
 	case "Time":
 		return len(vpTimes)
 	case "Duration":
-		return 3
+		return len(vpDurations)
 	case "Source", "PublicKey":
 		return 4
 	case "TypeName":
